@@ -737,6 +737,161 @@ def job_hyper(cfg):
     return res
 
 
+def job_pf(cfg):
+    """PhaseField simulation (Bourdin split: no value-dependent branch in the stress), havoc displacement and damage fields: component / norm /
+    matrix results of u, the damage result, strain / stress results against the code's own damaged stress field (dispatch, scaling, ordering),
+    Wdef = 1/2 u^T K_u(d) u with the assembled degraded stiffness, Psi_Crack = 1/2 d^T K_d d, psiP = element mean of 1/2 eps:C:eps at the
+    damage problem's integration points"""
+    from EasyFEA import Simulations, Models
+    from EasyFEA.FEM import MatrixType
+
+    res = JobResult(cfg)
+    c = new_context()
+    facade.install()
+    dim = cfg["dim"]
+
+    def build():
+        mesh = simlib.small_mesh("tetra2" if dim == 3 else "mixed")
+        mat = Models.Elastic.Isotropic(dim, E=210.0, v=0.25, planeStress=False) if dim == 2 else Models.Elastic.Isotropic(3, E=210.0, v=0.25)
+        pfm = Models.PhaseField(mat, "Bourdin", "AT2", Gc=1.5, l0=0.25, solver="History")
+        return mesh, Simulations.PhaseField(mesh, pfm, verbosity=False)
+
+    mesh, simu = build()
+    n = mesh.Nn * dim
+    u = sym_array("u", n)
+    d = sym_array("d", mesh.Nn, 0, Fraction(9, 10))
+    res.symbols = n + mesh.Nn
+    key = f"phase-field (Bourdin) dim={dim}"
+    res.functions |= {"PhaseField.Result", "PhaseField.Results_Available", "PhaseField.__indexResult", "PhaseField._Calc_Epsilon_e_pg", "PhaseField._Calc_Sigma_e_pg", "PhaseField._Calc_Psi_Elas",
+                      "PhaseField._Calc_Psi_Crack", "PhaseField.__Calc_psiPlus_e_pg", "PhaseField.Get_K_C_M_F", "Models.PhaseField.Get_g_e_pg", "Models._utils.Result_strain_or_stress_field_e"}
+    PT = simu.ProblemTypes
+    avail = simu.Results_Available()
+    mark = c.mark()
+    got, failed = {}, {}
+    with facade.symbolic():
+        simu._Set_solutions(PT.elastic, u.copy())
+        simu._Set_solutions(PT.damage, d.copy())
+        simu.Need_Update()
+        for name in avail:
+            for nv in ((True,) if name in ("Wdef", "Psi_Crack") else (False, True)):
+                try:
+                    got[(name, nv)] = simu.Result(name, nodeValues=nv)
+                except Exception as e:
+                    failed[(name, nv)] = f"{type(e).__name__}: {e}"[:120]
+        groups = mesh.Get_list_groupElem()
+        own_E = [np.asarray(simu._Calc_Epsilon_e_pg(u, groupElem=g), dtype=object) for g in groups]
+        own_S = [np.asarray(simu._Calc_Sigma_e_pg(simu._Calc_Epsilon_e_pg(u, groupElem=g), groupElem=g), dtype=object) for g in groups]
+        own_Em = [np.asarray(simu._Calc_Epsilon_e_pg(u, groupElem=g, matrixType=MatrixType.mass), dtype=object) for g in groups]
+        Ku = simu.Get_K_C_M_F(PT.elastic)[0]
+        Kd = simu.Get_K_C_M_F(PT.damage)[0]
+        Cmat = np.asarray(simu.phaseFieldModel.material.C, dtype=float)
+    pcs = c.pc_since(mark)
+    res.paths, res.path_conditions = 1, len(pcs)
+    dense = lambda M: np.asarray(M.a if isinstance(M, facade.SymMatrix) else M.toarray(), dtype=object)
+    nc = 3 if dim == 2 else 6
+    comps = ["xx", "yy", "xy"] if dim == 2 else ["xx", "yy", "zz", "yz", "xz", "xy"]
+    inv_r2 = Fraction(float(1 / np.sqrt(2)))
+
+    def emean(fields):
+        rows = []
+        for F in fields:
+            for e in range(F.shape[0]):
+                rows.append([sum(F[e, p_, k] for p_ in range(F.shape[1])) / F.shape[1] * (1 if k < dim else inv_r2) for k in range(nc)])
+        return np.array(rows, dtype=object)
+
+    def vm(fields):
+        out = []
+        for F in fields:
+            for e in range(F.shape[0]):
+                acc = 0
+                for p_ in range(F.shape[1]):
+                    G = [F[e, p_, k] if k < dim else F[e, p_, k] * inv_r2 for k in range(nc)]
+                    q = (G[0] ** 2 + G[1] ** 2 - G[0] * G[1] + 3 * G[2] ** 2) if dim == 2 else ((G[0] - G[1]) ** 2 + (G[1] - G[2]) ** 2 + (G[2] - G[0]) ** 2 + 6 * (G[5] ** 2 + G[3] ** 2 + G[4] ** 2)) / 2
+                    acc = acc + root(q, 2)
+                out.append(acc / F.shape[1])
+        return np.array(out, dtype=object)
+
+    Em, Sm = emean(own_E), emean(own_S)
+    psi = []
+    Cq = [[Fraction(float(Cmat[i, j])) for j in range(nc)] for i in range(nc)]
+    for F in own_Em:
+        for e in range(F.shape[0]):
+            acc = 0
+            for p_ in range(F.shape[1]):
+                ev = [F[e, p_, k] for k in range(nc)]
+                acc = acc + sum(ev[i] * Cq[i][j] * ev[j] for i in range(nc) for j in range(nc)) / 2
+            psi.append(acc / F.shape[1])
+    Kud, Kdd = dense(Ku), dense(Kd)
+    Wd = sum(u[i] * x for i, x in enumerate(facade._matmul(Kud, u))) / 2
+    Pc = sum(d[i] * x for i, x in enumerate(facade._matmul(Kdd, d))) / 2
+    O = {"Strain": ("element", Em), "Stress": ("element", Sm), "Evm": ("element", vm(own_E)), "Svm": ("element", vm(own_S)), "psiP": ("element", np.array(psi, dtype=object)),
+         "damage": ("nodal", d), "displacement": ("raw", u), "Wdef": ("scalar", np.array([Wd], dtype=object)), "Psi_Crack": ("scalar", np.array([Pc], dtype=object))}
+    for k, cn in enumerate(comps):
+        O["E" + cn] = ("element", Em[:, k])
+        O["S" + cn] = ("element", Sm[:, k])
+    for i, ax in enumerate("xyz"[:dim]):
+        O["u" + ax] = ("nodal", u.reshape(-1, dim)[:, i])
+    O["displacement_norm"] = ("nodal", np.array([root(sum(x * x for x in row), 2) for row in u.reshape(-1, dim)], dtype=object))
+    Um = np.zeros((mesh.Nn, 3), dtype=object)
+    Um[:, :dim] = u.reshape(-1, dim)
+    O["displacement_matrix"] = ("nodal", Um)
+
+    def make_replay(name, nv):
+        def replay(env):
+            uf, df = farr(c, env, u), farr(c, env, d)
+            m2, s2 = build()
+            s2._Set_solutions(s2.ProblemTypes.elastic, uf.copy())
+            s2._Set_solutions(s2.ProblemTypes.damage, df.copy())
+            s2.Need_Update()
+            try:
+                r = s2.Result(name, nodeValues=nv)
+            except Exception as e:
+                return True, {"result": name, "raises": f"{type(e).__name__}: {e}"[:160]}
+            if r is None:
+                return True, {"result": name, "returns": None}
+            if name not in O:
+                return False, {}
+            kind, want = O[name]
+            wf = farr(c, env, want)
+            if kind == "element" and nv:
+                wf = np.asarray(node_average(m2, wf if wf.ndim == 2 else wf[:, None]), dtype=float)
+                wf = wf if wf.shape[1] > 1 else wf[:, 0]
+            elif kind in ("nodal", "raw") and not nv:
+                return False, {}
+            r = np.asarray(r, dtype=float)
+            r = r.reshape(wf.shape) if r.size == wf.size else r
+            if r.shape != wf.shape:
+                return True, {"result": name, "shape": list(r.shape), "expected_shape": list(wf.shape)}
+            err = float(np.abs(r - wf).max()) / max(1.0, float(np.abs(wf).max()))
+            return err > 1e-8, {"result": name, "nodeValues": nv, "relative_difference": err, "got": r.ravel()[:4].tolist(), "expected": wf.ravel()[:4].tolist()}
+        return replay
+
+    scale = Fraction(int(float(np.abs(Cmat).max()) * 4) + 1)
+    fams = {"element": "strain / stress / energy-density results", "nodal": "component / norm / matrix / damage results", "raw": "vector results", "scalar": "energies"}
+    for (name, nv), val in sorted(got.items()):
+        lab = f"{key} Result('{name}', nodeValues={nv})"
+        if val is None:
+            res.record(lab + " returns a value", Outcome("cex", env={}, how="structure", detail="None"), make_replay(name, nv), key=f"{key}: advertised result not implemented")
+            continue
+        if name not in O:
+            continue
+        kind, want = O[name]
+        if kind == "element" and nv:
+            w2 = node_average(mesh, want if want.ndim == 2 else want[:, None])
+            want = w2 if want.ndim == 2 else w2[:, 0]
+        elif kind in ("nodal", "raw") and not nv:
+            continue
+        val = np.asarray(val, dtype=object)
+        val = val.reshape(np.asarray(want).shape) if val.size == np.asarray(want).size else val
+        cmp(res, lab, val, want, pcs, make_replay(name, nv), TOL * scale * (n if kind == "scalar" else 1), key=f"{key}: {fams[kind]}")
+    for (name, nv), msg in failed.items():
+        res.record(f"{key} Result('{name}', nodeValues={nv}) returns a value", Outcome("cex", env={}, how="structure", detail=msg), make_replay(name, nv), key=f"{key}: advertised result raises")
+    o = prove_abs_le(as_sym(np.asarray(got[("Exx", False)], dtype=object)[0]) * 2 - Em[0, 0] - 1, TOL, pcs, "twin")
+    res.twin(f"{key} twin", o.status == "cex")
+    res.stubs |= facade.USED_STUBS
+    return res
+
+
 def has_sym_arr(a):
     return any(isinstance(x, Sym) and not x.is_const() for x in np.asarray(a, dtype=object).ravel())
 
@@ -796,7 +951,7 @@ def job_reaction(cfg):
 
 
 def job(cfg):
-    return {"elastic": job_elastic, "reaction": job_reaction, "beam_results": job_beam_results, "hyper": job_hyper}.get(cfg["sim"], job_simple)(cfg)
+    return {"elastic": job_elastic, "reaction": job_reaction, "beam_results": job_beam_results, "hyper": job_hyper, "pf": job_pf}.get(cfg["sim"], job_simple)(cfg)
 
 
 def main():
@@ -821,6 +976,8 @@ def main():
         for timo in (False, True):
             configs.append({"sim": "beam_results", "dim": dim, "timoshenko": timo})
     configs.append({"sim": "hyper", "mesh": "mixed"})
+    configs.append({"sim": "pf", "dim": 2})
+    configs.append({"sim": "pf", "dim": 3})
     if tier == "thorough":
         configs.append({"sim": "hyper", "mesh": "quad2"})
     results = harness.run_jobs(job, configs)
